@@ -216,7 +216,9 @@ class JSExec(GoExec, SpecMixin, CallsMixin):
     def js_Literal(self, st, e):
         v = e['value']
         if isinstance(v, bool): return z3.BoolVal(v)
-        if isinstance(v, int): return self.num(v)
+        if isinstance(v, int):
+            if abs(v) > TWO53: v = int(float(v))        # the double the literal denotes (exact as an integer)
+            return self.num(v)
         if isinstance(v, float):
             if v == int(v): return self.num(int(v))
             raise Unsupported('non-integer literal')
@@ -1184,6 +1186,10 @@ class JSExec(GoExec, SpecMixin, CallsMixin):
             rng(v, lo, hi)
             if self.mode != 'bv': self.know(v, lo, hi)
             return v
+        if ty == 'bigcount':
+            if self.mode == 'bv': raise Unsupported('bigcount parameters need mode jn')
+            v = fresh(name, I); st.pc.append(v >= 64)
+            return v
         if ty == 'bool':
             return fresh(name, B)
         if ty == 'real':     # a finite double that need not be an integer (modelled as a real; only exact operations are allowed on it)
@@ -1402,7 +1408,7 @@ class JSExec(GoExec, SpecMixin, CallsMixin):
     def arg_matches(self, v, ty):
         if ty == 'i64': return isinstance(v, JSObj) and v.ctor == 'Int64'
         if ty == 'u64': return isinstance(v, JSObj) and v.ctor == 'Uint64'
-        if ty in ('num', 'int', 'int32', 'uint32', 'byte', 'nat', 'rune32'): return isinstance(v, z3.ExprRef) and not z3.is_bool(v)
+        if ty in ('num', 'int', 'int32', 'uint32', 'byte', 'nat', 'rune32', 'bigcount'): return isinstance(v, z3.ExprRef) and not z3.is_bool(v)
         if ty == 'bool': return isinstance(v, z3.ExprRef) and z3.is_bool(v)
         if ty == 'str': return isinstance(v, StrV)
         return True
@@ -1441,6 +1447,8 @@ class JSExec(GoExec, SpecMixin, CallsMixin):
             if rng and isinstance(v, z3.ExprRef):
                 lo, hi = (self.num(rng[0]), self.num(rng[1]))
                 self.oblige(st, 'pre-type@call %s(%s)@%s' % (name, pname(p), line), z3.And(v >= lo, v <= hi), src=line)
+            if ty == 'bigcount' and isinstance(v, z3.ExprRef):      # a shift count of at least 64, of any magnitude (mode jn)
+                self.oblige(st, 'pre-type@call %s(%s)@%s' % (name, pname(p), line), v >= self.num(64), src=line)
         old = st.clone()
         self._pre_binds = dict(binds)
         envp = SpecEnv(st, binds, old)
